@@ -32,8 +32,13 @@ class C17(Check):
             "non-trivial = at least one non-empty operand; distinct by (op, operands, type, base)")
     assumptions = ["intervals do not wrap the integer type"]
 
+    def stateful(self):
+        return True             # sessions: the events of a group go through one harness process, in order
+
     def nontrivial_key(self, group, events):
         c = group[0]
+        if c["op"] == "snew":
+            return repr((c["init"], c["t"], c["base"], [(o["op"], o["x"], o["y"]) for o in group[1:]])) if any(c["init"]) else None
         if not c["a"] and not c.get("b"):
             return None
         return repr((c["op"], c["a"], c.get("b"), c["t"], c["base"]))
@@ -65,4 +70,23 @@ class C17(Check):
                     t, bs = tb()
                     gs.append([{"case": "s%d" % k, "op": op, "t": t, "base": bs, "a": a, "b": b}])
                     k += 1
+        # sessions: the Map values stay alive; every operation appends its result and all maps of the session are
+        # re-read after it - an operation changes neither its arguments nor any earlier result (a later operation on a
+        # changed argument would be wrong too: results are fed into further operations)
+        for a in subsets:
+            for b in subsets:
+                if tier == "quick" and rng.random() < 0.6:
+                    continue
+                t, bs = tb()
+                gid = "q%d" % k
+                k += 1
+                g = [{"case": gid, "op": "snew", "t": t, "base": bs, "a": [], "b": [], "init": [a, b], "x": 0, "y": 0}]
+                plan = [("sunion", 0, 1), ("sintersect", 0, 1), ("scomplement", 0, 1), ("sunion", 1, 0), ("scomplement", 1, 0),
+                        ("sintersect", 0, 2), ("scomplement", 2, 1), ("sunion", 3, 4), ("sintersect", 6, 5), ("sunion", 4, 6)]
+                rng.shuffle(plan)
+                n = 2
+                for op, x, y in plan[:6]:
+                    g.append({"case": gid, "op": op, "t": t, "base": bs, "a": [], "b": [], "init": [], "x": x % n, "y": y % n})
+                    n += 1
+                gs.append(g)
         return gs
